@@ -1,4 +1,5 @@
 import Dashu.Proofs.Trans.Powi
+import Dashu.Proofs.Trans.PowiNeg
 import Mathlib.Tactic.NormNum
 /-
   C11, DESIGN §8 item 2 — `Context::powi` with a NON-NEGATIVE exponent `n ≥ 2` at a limited precision
@@ -55,11 +56,59 @@ theorem workPrec_eq (p n : Nat) (hn : 2 ≤ n) : powiWorkPrec p (lowBits n) = p 
   have h2 : 1 ≤ bitLen n := bitLen_pos n (by omega)
   omega
 
+/-! ### negative exponent `-n` (`n ≥ 1`): reversed context at `p + 2·bit_len p` digits, inner non-negative power,
+    reciprocal, final rounding (`Model/Trans/PowiNeg.lean`) -/
+
+/-- the value `inv` handed to the final rounding is within relative distance `8·B^(1 − p − 2·bit_len p)` of
+    `base^(-n)`; the result is the correct mode-`m` rounding of `inv` (never a panic for a non-zero base) -/
+theorem powi_neg_error (B : Nat) (hB : 2 ≤ B) (m : Mode) (c : Coarse) (hc : CoarseSound c) (p : Nat) (hp : 2 ≤ p)
+    (base : FRepr) (hn : Normalized B base) (hb0 : base.signif ≠ 0) (n : Nat) (hn1 : 1 ≤ n)
+    (hbase : base.digits B ≤ 2 * powiWorkPrec (powiNegPrec p) (lowBits n)) :
+    ∃ pow inv out, powiNeg false B m c p base n = .ok (pow, inv, out) ∧
+      |inv.toRat B - 1 / (base.toRat B) ^ n|
+        ≤ 8 * bpowQ B (1 - (powiNegPrec p : Int)) * |1 / (base.toRat B) ^ n| ∧
+      Contract B m p (inv.toRat B) (out.1.toRat B) out.2 :=
+  Dashu.Model.Trans.powi_neg_error B hB m c hc p hp base hn hb0 n hn1 hbase
+
+/-- nearest modes: less than one `ulp()` of the result from `base^(-n)` when `24·B^(1 − 2·bit_len p) ≤ 1`
+    (`p ≥ 4` in base 2, `p ≥ 2` otherwise) -/
+theorem powi_neg_half_lt_ulp (B : Nat) (hB : 2 ≤ B) (m : Mode) (hm : m.isHalf = true) (c : Coarse)
+    (hc : CoarseSound c) (p : Nat) (hp : 2 ≤ p) (hθ : 24 * bpowQ B (1 - 2 * (bitLen p : Int)) ≤ 1)
+    (base : FRepr) (hn : Normalized B base) (hb0 : base.signif ≠ 0) (n : Nat) (hn1 : 1 ≤ n)
+    (hbase : base.digits B ≤ 2 * powiWorkPrec (powiNegPrec p) (lowBits n)) :
+    ∃ pow inv out, powiNeg false B m c p base n = .ok (pow, inv, out) ∧
+      |out.1.toRat B - 1 / (base.toRat B) ^ n| < bpowQ B (out.1.exp + (out.1.digits B : Int) - (p : Int)) :=
+  Dashu.Model.Trans.powi_neg_half_lt_ulp B hB m hm c hc p hp hθ base hn hb0 n hn1 hbase
+
+example : 24 * bpowQ 2 (1 - 2 * (bitLen 4 : Int)) ≤ 1 := by decide +kernel
+example : 24 * bpowQ 10 (1 - 2 * (bitLen 2 : Int)) ≤ 1 := by decide +kernel
+-- (3/8)^(-3) = 512/27 = 18.96…; base 2, 5 bits, HalfEven: 19 = 10011b
+example : (powiNeg false 2 .halfEven coarseNone 5 ⟨3, -3⟩ 3).map (fun r => r.2.2.1) = .ok ⟨19, 0⟩ := by
+  decide +kernel
+
 /-! non-vacuity: the side condition of the nearest-mode theorem holds from small precisions on -/
 example : 3 * bpowQ 2 (2 - (bitLen 8 : Int)) ≤ 1 := by decide +kernel
 example : 3 * bpowQ 10 (2 - (bitLen 4 : Int)) ≤ 1 := by decide +kernel
 example : 3 * bpowQ 3 (2 - (bitLen 4 : Int)) ≤ 1 := by decide +kernel
 example : lowBits 5 = [false, true] ∧ bitsVal (lowBits 5) 1 = 5 := by decide +kernel
+
+theorem coarseNone_sound : CoarseSound coarseNone := by
+  intro B f k o h; cases h
+
+/-- the hypotheses of the two nearest-mode theorems are met by concrete operands:
+    `1.2345₁₀` to the 7th power at 8 digits, and to the power −7 -/
+example :
+    let r := (powiNonneg false 10 .halfEven coarseNone 8 ⟨12345, -4⟩ (lowBits 7)).2.1
+    |r.toRat 10 - ((⟨12345, -4⟩ : FRepr).toRat 10) ^ 7| < bpowQ 10 (r.exp + (r.digits 10 : Int) - (8 : Nat)) :=
+  powi_nonneg_half_lt_ulp 10 (by decide) .halfEven rfl coarseNone coarseNone_sound 8 (by decide)
+    (by decide +kernel) ⟨12345, -4⟩ (by unfold Normalized; decide) 7 (by decide) (by decide +kernel)
+
+example :
+    ∃ pow inv out, powiNeg false 10 .halfAway coarseNone 8 ⟨12345, -4⟩ 7 = .ok (pow, inv, out) ∧
+      |out.1.toRat 10 - 1 / ((⟨12345, -4⟩ : FRepr).toRat 10) ^ 7|
+        < bpowQ 10 (out.1.exp + (out.1.digits 10 : Int) - (8 : Nat)) :=
+  powi_neg_half_lt_ulp 10 (by decide) .halfAway rfl coarseNone coarseNone_sound 8 (by decide)
+    (by decide +kernel) ⟨12345, -4⟩ (by unfold Normalized; decide) (by decide) 7 (by decide) (by decide +kernel)
 
 /-- the model reproduces what the pinned commit printed for
     `FBig::<Away, 3>(163·3⁻⁷, precision 5).powi(5)`: `100·3⁻¹⁶`, `Inexact(AddOne)` -/
